@@ -99,7 +99,23 @@ def cases(draw, tier):
     # distances): on centres, edges, and several points close to the same
     # cell centre at different distances
     near = draw(st.booleans())
-    if near:
+    if draw(st.integers(0, 4)) == 0:
+        # every point far outside the flow direction grid (rain gauges of a
+        # neighbouring region), each in its own direction, from twice the
+        # grid size to 2^14 cells away: the nearest one still gets the cell
+        case["ptsmode"] = "far"
+        case["pts"] = []
+        for _ in range(max(npts, 2)):
+            sx, sy = draw(st.sampled_from(
+                [(-1, 0), (1, 0), (0, -1), (0, 1), (-1, -1), (1, 1),
+                 (-1, 1), (1, -1)]))
+            k = draw(st.one_of(
+                st.integers(2 * (nr + nc) + 2, 8 * (nr + nc) + 8),
+                st.integers(7, 14).map(lambda e: 2 ** e)))
+            case["pts"].append(
+                [4 * draw(st.integers(-2, 2 * nc + 2)) + 8 * sx * k,
+                 4 * draw(st.integers(-2, 2 * nr + 2)) + 8 * sy * k])
+    elif near:
         cx, cy = draw(st.integers(0, nc - 1)), draw(st.integers(0, nr - 1))
         case["pts"] = [[8 * cx + 4 + draw(st.integers(-3, 3)),
                         8 * cy + 4 + draw(st.integers(-3, 3))]
@@ -358,6 +374,9 @@ def oracle(case):
         labels.append("voronoi:tie")
     if len(axy) > len(pts):
         labels.append("voronoi:more-cells-than-points")
+    if case.get("ptsmode") == "far":
+        labels.append("voronoi:all-points-far-outside"
+                      + (":nearest-not-first" if cnt[0] < len(axy) else ""))
     if len(ca.idxcells_area_filled) > len(ca.idxcells_area):
         labels.append("filled-area-larger")
     nt = nt or (tie and len(axy) > len(pts))
